@@ -29,7 +29,7 @@ Section WithHandler.
         | _ => [Write 0]      (* not enabled: rejected *)
         end
     | EFin => [Fin]
-    | EDecoded => if (delivered st <? written st)%nat then [Recv (written st - delivered st); TryDecode] else [TryDecode]
+    | EDecoded => if (delivered st <? written st)%nat then [Recv (written st - delivered st); TryDecode; Dispatch] else [TryDecode; Dispatch]
     | EReturned => [HandlerReturn]
     | EFinished => [SFinish]
     | EResponse => [CRead]
@@ -44,7 +44,7 @@ Section WithHandler.
     | EServerEnd =>
         match ss st with
         | SWait => [NoticeReset]
-        | SRunning _ | SWriting _ => [NoticeStop]
+        | SQueued _ | SRunning _ | SWriting _ => [NoticeStop]
         | SDone | SFailed | SDropped => []
         end
     end.
